@@ -66,6 +66,10 @@ def render(rec):
         if c["pos"] == "impl":
             return f"{use}pub struct X;\npub trait TI<T>: 'static {{ }}\n#[::entrait::entrait]\nimpl TI for X {{\n    fn {f}<D>(deps: &D, {pt}) {{ }}\n}}\n"
         return f"{use}#[::entrait::entrait]\ntrait Tr {{\n    fn {f}(&self, {pt});\n}}\n"
+    if k == "implpath":
+        path = {"plain": "TI", "prefixed": "self::TI", "generic": "TI<u8>"}[c["path"]]
+        decl = "pub trait TI<V, T>: 'static { }" if c["path"] == "generic" else "pub trait TI<T>: 'static { }"
+        return f"pub struct X;\n{decl}\n#[::entrait::entrait]\nimpl {path} for X {{\n    fn a<D>(deps: &D) {{ }}\n}}\n"
     if k == "gen":
         gens, where, params = ["'a", "'b"], [], []
         db = c["dbound"]
@@ -96,7 +100,7 @@ def main():
     chk = vf.Check("C15")
     thorough = vf.tier() == "thorough"
     cases, res = vf.mc_cases(chk, "MC_C15", cfg_edits={"MaxToks = 1": "MaxToks = 2"},
-                             actions=["ClassifyItem", "ParseAttr", "AnalyzeFnDeps", "TraitChecks", "FixParamIdents", "CollectGenerics"], workers=12, heap="12g")
+                             actions=["ClassifyItem", "ParseAttr", "AnalyzeFnDeps", "TraitChecks", "FixParamIdents", "CollectGenerics", "ParseImplHeader"], workers=12, heap="12g")
     crate = vf.Crate(os.path.join(chk.work, "crate"), "c15cases", deps=["async-trait"])
     crate.prelude = PRELUDE
     for c in cases:
@@ -140,12 +144,12 @@ def main():
     chk.cov["distinct_nontrivial"] = sum(1 for e in events if e["obs"]["invoked"] and e["obs"]["outcome"] != "ok")
     chk.cov["not_invoked_by_rustc"] = sum(1 for e in events if not e["obs"]["invoked"])
     chk.cov["documented_misuse_cases"] = sum(1 for c in cases if c["fault"])
-    chk.cov["by_kind"] = {k: sum(1 for c in cases if c["c"]["kind"] == k) for k in ("attr", "item", "deps", "trait", "pat", "gen")}
+    chk.cov["by_kind"] = {k: sum(1 for c in cases if c["c"]["kind"] == k) for k in ("attr", "item", "deps", "trait", "pat", "gen", "implpath")}
     chk.cov["rule"] = (f"option lists (well- and ill-formed) of <= 2 tokens x leads x trailing comma x 4 targets; 16 "
                        "non-supported item kinds; every dependency-parameter shape (13 bases x 6 wrappings) x fn/mod/impl x no_deps; "
                        "5 parameter patterns x 7 delegation kinds x 8 extra trait items; every pattern symbol of spec/Params.tla as a parameter of a fn / module fn / "
                        "impl-block fn / trait method x {ordinary, would-be-generated, raw} function names; 4 ways of bounding the dependency parameter x 6 kinds of "
-                       "further where-predicate x fn/mod/impl; non-trivial = the macro was invoked and rejected or panicked")
+                       "further where-predicate x fn/mod/impl; the trait path of an impl block {plain, with a module prefix, with generic arguments}; non-trivial = the macro was invoked and rejected or panicked")
     chk.cov["exhaustive"] = True
     chk.cov["build_iterations"] = iters
     vf.report_drift(chk, drift, lambda d: f"{byid[d['case']]['c']} obs={ev[d['case']]['obs']['outcome']}:{ev[d['case']]['obs']['class']} '{ev[d['case']]['obs']['message'][:80]}' pred={byid[d['case']]['pred']}")
@@ -180,7 +184,8 @@ def refine_class(cls, msg):
     table = [("dependency 'receiver'", "missing-deps"), ("self receiver", "self-receiver"),
              ("concrete dependencies in a module", "concrete-in-module"), ("concrete dependency in an impl block", "concrete-in-impl"),
              ("No self allowed", "no-self-allowed"), ("No leading colon", "no-leading-colon"),
-             ("does not support this kind of trait item", "unsupported-trait-item")]
+             ("does not support this kind of trait item", "unsupported-trait-item"),
+             ("generic arguments on the trait of an impl block", "impl-trait-path-arguments")]
     for k, v in table:
         if k in msg:
             return v
